@@ -8,7 +8,9 @@ Vocabulary (shared with spec/MxIOSpec.tla):
   models "M1","M2"; every model has spaces A and B, each with a scalar cells "c"; B may derive
   from A; names of references are plain identifiers, "c" is the cells, "1x" is not an
   identifier, "A" is a space name at model level;
-  values are identified BY IDENTITY with small ints: 0 = the int 0, pandas ids, module ids.
+  values are identified BY IDENTITY with small ints: 0 = the int 0, pandas ids, module ids,
+  and modelx objects OF THE SAME MODEL: 101 = space A, 102 = cells A.c, 103 = space B,
+  104 = cells B.c.
 """
 import hashlib
 import json
@@ -96,6 +98,7 @@ class World:
             self.obj[v] = make_pandas(pd, v)
         self.mvals = list(init["mvals"])
         self.models = {}        # name -> Model interface, also after close
+        self.oobj = {}          # model name -> {object value id -> Space / Cells interface}
         self.copies = []        # (name, Model) of read-back copies
         for name in init["models"]:
             m = mx.new_model(name)
@@ -105,6 +108,8 @@ class World:
             if name in init["base"]:
                 m.B.add_bases(m.A)
             self.models[name] = m
+            # modelx objects as values (interfaces kept: identity survives deletion)
+            self.oobj[name] = {101: m.A, 102: m.A.c, 103: m.B, 104: m.B.c}
         self.nwrites = 0
 
     def close(self):
@@ -114,23 +119,31 @@ class World:
             shutil.rmtree(self.tmp, ignore_errors=True)
 
     # -- identification -------------------------------------------------------
-    def vid(self, o):
+    def vid(self, o, mname=None):
         for k, x in self.obj.items():
+            if x is o:
+                return k
+        for k, x in self.oobj.get(mname, {}).items():
             if x is o:
                 return k
         if type(o) is int and o == 0:
             return 0
         return -1
 
-    def vid_by_id(self, key):
+    def vid_by_id(self, key, mname=None):
         for k, x in self.obj.items():
+            if id(x) == key:
+                return k
+        for k, x in self.oobj.get(mname, {}).items():
             if id(x) == key:
                 return k
         if key == id(0):
             return 0
         return -1
 
-    def value(self, v):
+    def value(self, v, mname=None):
+        if v >= 100:
+            return self.oobj[mname][v]
         return 0 if v == 0 else self.obj[v]
 
     def model_name(self, g):
@@ -175,16 +188,17 @@ class World:
         refs = []
         for n, r in impl.global_refs.items():
             if n != "__builtins__":
-                refs.append({"sp": "", "n": n, "v": self.vid(r.interface), "d": False})
+                refs.append({"sp": "", "n": n, "v": self.vid(r.interface, name), "d": False})
         for s in sps:
             for n, r in impl.named_spaces[s].own_refs.items():
-                refs.append({"sp": s, "n": n, "v": self.vid(r.interface), "d": bool(r.is_derived())})
+                refs.append({"sp": s, "n": n, "v": self.vid(r.interface, name),
+                             "d": bool(r.is_derived())})
         base = False
         if len(sps) == 2:
             base = any(b is m.spaces["A"] for b in m.spaces["B"]._direct_bases)
         v2r = []
         for key, rs in impl.refmgr._valid_to_refs.items():
-            v = self.vid_by_id(key)
+            v = self.vid_by_id(key, name)
             for r in rs:
                 v2r.append({"v": v, "sp": "" if r.parent is impl else r.parent.name, "n": r.name})
         try:
@@ -258,7 +272,7 @@ class World:
                 else:
                     raise HarnessError("unknown kind")
             elif k == "assign":
-                setattr(self.parent(op["m"], op["sp"]), op["n"], self.value(op["v"]))
+                setattr(self.parent(op["m"], op["sp"]), op["n"], self.value(op["v"], op["m"]))
             elif k == "del_ref":
                 delattr(self.parent(op["m"], op["sp"]), op["n"])
             elif k == "update":
@@ -301,6 +315,7 @@ class World:
         out = os.path.join(self.tmp, "out%d" % self.nwrites)
         rname = "R%d" % self.nwrites
         rt, rspecs, res, exc = [], [], "ok", ""
+        orefs_ok = True
         copy = None
         try:
             src_specs = list(m.iospecs)
@@ -310,6 +325,21 @@ class World:
             self.copies.append((rname, copy))
             cspecs = {self.loc_of(s.path): s for s in copy.iospecs}
             rspecs = sorted(cspecs)
+            # references bound to modelx objects: bound to the corresponding object of the copy
+            cobj = {}
+            for sname in SPACES:
+                if sname in copy._impl.named_spaces:
+                    sp = copy.spaces[sname]
+                    cobj[101 if sname == "A" else 103] = sp
+                    cobj[102 if sname == "A" else 104] = sp.cells["c"]
+            for r in src_refs:
+                if r["v"] >= 100:
+                    cpar = copy._impl if r["sp"] == "" else copy._impl.named_spaces.get(r["sp"])
+                    crefs = None if cpar is None else (
+                        cpar.global_refs if r["sp"] == "" else cpar.own_refs)
+                    cr = crefs[r["n"]] if crefs is not None and r["n"] in crefs else None
+                    if cr is None or cobj.get(r["v"]) is None or cr.interface is not cobj[r["v"]]:
+                        orefs_ok = False
             for s in src_specs:
                 loc = self.loc_of(s.path)
                 v = self.vid(s.value)
@@ -346,7 +376,7 @@ class World:
                     mx.get_models()[rname].close()
             except Exception:
                 pass
-        return {"res": res, "rt": rt, "rspecs": rspecs, "exc": exc}
+        return {"res": res, "rt": rt, "rspecs": rspecs, "exc": exc, "orefs_ok": orefs_ok}
 
 
 def run_case(case, gen=None):
